@@ -6,8 +6,8 @@ import json
 import os
 
 from ..report import rule, VERIF_DIR
-from ..model import norm, NotConst, calls_in, stores_in, ShapeError, AnchorMissing
-from ..paths import enumerate_paths, facts_at, walk_shallow, enclosing_stmt, always_leaves
+from ..model import norm, NotConst, calls_in, stores_in, ShapeError, AnchorMissing, qualname
+from ..paths import enumerate_paths, facts_at, walk_shallow, enclosing_stmt, always_leaves, enclosing_loops
 from ..guards import Evaluator, atom_texts, atoms_of_facts
 from ..tables import Tables, tags_conflict, all_table_classes
 from .common import where, self_call, feasible, path_nodes, base_call, body_paths, reaches, consistent
@@ -639,3 +639,27 @@ def r7(ctx):
         ctx.check("enum[%s]" % name, not changed, "py34/bacpypes/basetypes.py:1", "enumeration numbers changed (name: reference, now): %r" % (dict(list(changed.items())[:3]),))
         gone = [k for k in d if k not in now]
         ctx.check("enum[%s]:names-kept" % name, not gone, "py34/bacpypes/basetypes.py:1", "enumeration names removed: %r" % gone[:3])
+
+
+@rule("C03.R10", "every element of a list is encoded into a tag of its own: the tag appended in one pass of a list encoder is created in that pass", floor=3, engines="E1 loops")
+def r10(ctx):
+    prog = ctx.prog
+    m = prog.module("constructeddata")
+    n = 0
+    for fn in [x for x in ast.walk(m.tree) if isinstance(x, ast.FunctionDef) and x.name == "encode"]:
+        for ap in [x for x in ast.walk(fn) if isinstance(x, ast.Call) and isinstance(x.func, ast.Attribute) and x.func.attr == "append" and len(x.args) == 1 and isinstance(x.args[0], ast.Name)]:
+            loops = enclosing_loops(ap)
+            if not loops:
+                continue
+            nm = ap.args[0].id
+            makers = [s_ for s_ in ast.walk(fn) if isinstance(s_, ast.Assign) and any(isinstance(t_, ast.Name) and t_.id == nm for t_ in s_.targets)
+                      and isinstance(s_.value, ast.Call) and norm(s_.value.func) == "Tag" and not s_.value.args]
+            if not makers:
+                continue
+            n += 1
+            inner = loops[0]
+            inside = [s_ for s_ in makers if any(s_ is y for b_ in inner.body for y in ast.walk(b_))]
+            ctx.check("%s:own-tag-per-element@%d" % (qualname(fn), n), bool(inside), where(m, ap),
+                      "the tag appended for each element is created once outside the loop: every pass re-fills and appends the same Tag object, so all elements come out as the last one")
+    if n < 3:
+        raise ShapeError("list encoders: only %d tag appends in loops found" % n)
